@@ -1,7 +1,9 @@
 //! C07 — open-loop driving of the real `DualAverage` / `Adam` (hook re-exports) with synthetic
 //! acceptance histories; case lines for the Lean driver + direct oracles on the implementation.
 use crate::util::*;
-use nuts_rs::verif_hooks::{Adam, AdamOptions, DualAverage, DualAverageOptions};
+use crate::mock::*;
+use nuts_rs::verif_hooks::{Adam, AdamOptions, DualAverage, DualAverageOptions, Hamiltonian, NutsOptions, StepSizeSettings, StepSizeStrategy};
+use nuts_rs::{CpuMath, StepSizeAdaptMethod, StepSizeAdaptOptions};
 use serde_json::json;
 
 fn gen_history(r: &mut Sm, n: usize, target: f64) -> (Vec<f64>, &'static str) {
@@ -182,8 +184,110 @@ pub fn main(tier: &str, seed: u64, outdir: &str) {
         if decided > 0 { rep.nontrivial += 1; }
     }
 
+    search_cases(tier, seed, &mut cases, &mut rep);
     cases.write(&format!("{outdir}/C07.cases")).unwrap();
     rep.write(&format!("{outdir}/C07.report.json"));
+}
+
+/// One-step energy script for the step-size search: energy error as a function of (direction, step).
+#[derive(Clone, Debug)]
+pub struct SearchScript {
+    pub cf: f64,       // forward: energy error = cf * step^pf
+    pub pf: f64,
+    pub cb: f64,       // backward
+    pub pb: f64,
+    pub fail_above: f64, // leapfrog not Ok for step > fail_above (forward) ...
+    pub fail_below: f64, // ... or step < fail_below (backward)
+    pub fail_first: bool,
+}
+
+impl SearchScript {
+    fn energy_err(&self, fwd: bool, step: f64) -> Option<f64> {
+        if self.fail_first { return None; }
+        if fwd && step > self.fail_above { return None; }
+        if !fwd && step < self.fail_below { return None; }
+        Some(if fwd { self.cf * step.powf(self.pf) } else { self.cb * step.powf(self.pb) })
+    }
+}
+
+pub struct SearchRun { pub trials: Vec<(bool, f64, u8, f64)>, pub final_step: f64, pub adapt_step: f64 }
+
+pub fn run_search(sc: &SearchScript, adam: bool, target: f64, init: f64) -> SearchRun {
+    let mut math: MMath = CpuMath::new(Dummy(1));
+    let orbit = Orbit { energy: Box::new(|_| 0.0), turning: Box::new(|_, _| false), fault: Default::default() };
+    let mut ham = MockHam::new(&mut math, orbit, 0);
+    let sc2 = sc.clone();
+    ham.one_step_energy = Some(Box::new(move |fwd, step| sc2.energy_err(fwd, step)));
+    let settings = StepSizeSettings {
+        target_accept: target, initial_step: init, jitter: None,
+        adapt_options: StepSizeAdaptOptions { method: if adam { StepSizeAdaptMethod::Adam } else { StepSizeAdaptMethod::DualAverage }, ..Default::default() },
+    };
+    let mut strat = StepSizeStrategy::new(settings);
+    let mut opts = NutsOptions::default();
+    let mut rng = ScriptRng::new(vec![]);
+    let log = ham.log.clone();
+    strat.init(&mut math, &mut opts, &mut ham, &[0.0], &mut rng).expect("mock init cannot fail");
+    let final_step = ham.step_size();
+    strat.update_stepsize(&mut rng, &mut ham, false);
+    let adapt_step = ham.step_size();
+    let trials = log.borrow().iter().filter_map(|e| match e { Ev::Leap { outcome, energy_err, step, dir_fwd, .. } => Some((*dir_fwd, *step, *outcome, *energy_err)), _ => None }).collect();
+    SearchRun { trials, final_step, adapt_step }
+}
+
+fn search_oracle(run: &SearchRun, target: f64, init: f64) -> Option<String> {
+    let acc = |e: f64| (-e).min(0.0).exp();
+    if run.trials.is_empty() { return Some("no trial leapfrog".into()); }
+    if run.final_step == init && run.trials.len() != 2 { return None; } // reset / never moved: nothing to bracket
+    let loop_trials = &run.trials[1..];
+    if loop_trials.is_empty() { return None; }
+    let last = loop_trials[loop_trials.len() - 1];
+    if last.2 != 0 { return if run.final_step == init { None } else { Some(format!("a trial failed but the step size is {} instead of initial_step {init}", run.final_step)) }; }
+    if run.final_step != last.1 { return if loop_trials.len() == 100 && run.final_step == init { None } else { Some(format!("final step {} is not the last trial {}", run.final_step, last.1)) }; }
+    let fwd = last.0;
+    let a = acc(last.3);
+    let capped = if fwd { last.1 > 1e5 } else { last.1 < 1e-10 };
+    if !capped && !(if fwd { a <= target } else { a >= target }) {
+        return Some(format!("search stopped at step {} whose one-step acceptance {a} is on the wrong side of target {target}", last.1));
+    }
+    for t in &loop_trials[..loop_trials.len() - 1] {
+        let at = acc(t.3);
+        if if fwd { at <= target } else { at >= target } {
+            return Some(format!("search continued past step {} although its acceptance {at} already crossed target {target}", t.1));
+        }
+    }
+    None
+}
+
+fn search_cases(tier: &str, seed: u64, cases: &mut Cases, rep: &mut Report) {
+    let n = if tier == "thorough" { 3000 } else { 600 };
+    for case in 0..n {
+        let mut r = Sm::new(seed, "C07-search", case);
+        let sc = SearchScript {
+            cf: r.log_uniform(1e-6, 1e3), pf: *r.pick(&[1.0, 2.0, 3.0, 0.5]),
+            cb: r.log_uniform(1e-6, 1e3), pb: *r.pick(&[1.0, 2.0, 3.0, 0.5]),
+            fail_above: if r.below(4) == 0 { r.log_uniform(1e-3, 1e4) } else { f64::INFINITY },
+            fail_below: if r.below(4) == 0 { r.log_uniform(1e-9, 1e-1) } else { 0.0 },
+            fail_first: case % 37 == 0,
+        };
+        let sc = if case % 11 == 0 { SearchScript { cf: 0.0, cb: 0.0, ..sc } } else if case % 13 == 0 { SearchScript { cf: 1e9, cb: 1e9, ..sc } } else { sc };
+        let target = r.range(0.05, 0.99);
+        let init = r.log_uniform(1e-6, 1e3);
+        let adam = case % 2 == 1;
+        let run = run_search(&sc, adam, target, init);
+        rep.evaluations += 1;
+        let moved = run.trials.len() > 2;
+        if moved { rep.nontrivial += 1; }
+        rep.hit(&format!("search.trials.{}", match run.trials.len() { 1 => "1", 2 => "2", 3..=10 => "3-10", 11..=100 => "11-100", _ => "101" }));
+        let mut lb = LineB::new("search").u(case).u(adam as u64).f(target).f(init).u(run.trials.len() as u64);
+        for t in &run.trials { lb = lb.u(t.0 as u64).f(t.1).u(t.2 as u64).f(t.3); }
+        lb = lb.f(run.final_step).f(run.adapt_step);
+        cases.line(&lb.0);
+        if let Some(msg) = search_oracle(&run, target, init) {
+            rep.violation("search.bracket", &msg, json!({"kind": "search", "seed": seed, "case": case, "adam": adam, "target": target, "init": init,
+                "script": {"cf": sc.cf, "pf": sc.pf, "cb": sc.cb, "pb": sc.pb, "fail_above": sc.fail_above.min(1e300), "fail_below": sc.fail_below, "fail_first": sc.fail_first}}));
+        }
+        if case < 2 { rep.sample(json!({"kind": "search", "target": target, "init": init, "trials": run.trials.iter().take(6).map(|t| (t.0, t.1, t.2)).collect::<Vec<_>>(), "final_step": run.final_step})); }
+    }
 }
 
 /// Re-run a replay file on the implementation; returns true if the violation reproduces.
@@ -227,6 +331,15 @@ pub fn replay(v: &serde_json::Value) -> bool {
             let s = *out.last().unwrap();
             println!("replay: smoothed={m} step {prev} -> {s}");
             (m > 0.0) != (s > prev)
+        }
+        "search" => {
+            let sv = &v["script"];
+            let sc = SearchScript { cf: f(&sv["cf"]), pf: f(&sv["pf"]), cb: f(&sv["cb"]), pb: f(&sv["pb"]),
+                fail_above: { let x = f(&sv["fail_above"]); if x >= 1e300 { f64::INFINITY } else { x } }, fail_below: f(&sv["fail_below"]), fail_first: sv["fail_first"].as_bool().unwrap() };
+            let run = run_search(&sc, v["adam"].as_bool().unwrap(), f(&v["target"]), f(&v["init"]));
+            let r = search_oracle(&run, f(&v["target"]), f(&v["init"]));
+            println!("replay: {} trials, final step {}, oracle: {:?}", run.trials.len(), run.final_step, r);
+            r.is_some()
         }
         _ => false,
     }
